@@ -330,6 +330,7 @@ func prepare(src string, nvars int) (*prepared, error) {
 		gojq.WithIterFunction("ticks", 0, 0, func(any, []any) gojq.Iter { return &tickIter{h: h} }),
 		gojq.WithInputIter(inIter{h}),
 	}
+	opts = append(opts, iterFnOpts()...)
 	if nvars > 0 {
 		names := make([]string, nvars)
 		for i := range names {
